@@ -8,7 +8,10 @@ legs: MC   TLC checks the laws of the statement on the model: MC_Calendar (every
            MC_Calendar_walk: date_bin as the code computes it (walk from the origin) satisfies the same laws;
            MC_Accounts also renames every account into other type tables (the five root names are ledger options)
            and checks the laws and possign as the code computes it there;
-           non-vacuity: MC_Calendar_shipped (the walk before repair 5c4d63a, `n >= source`) must violate BinInv,
+           MC_DateCast: date(<text>) read in the format %Y-%m-%d (month / day of one or two digits) inverts every such
+           spelling of every date, rejects the other ISO 8601 spellings and near misses, as a left-to-right scan does;
+           non-vacuity: MC_DateCast_iso (a conversion reading ISO 8601 calendar dates) must violate CastInv,
+           MC_Calendar_shipped (the walk before repair 5c4d63a, `n >= source`) must violate BinInv,
            MC_Accounts_default_types (possign consulting the built-in names, not the ledger's) must violate MechInv
       S2C  Gen_C18 emits spec-derived boundary cases with the value the spec demands; every case is evaluated
            THROUGH BQL (SELECT f(consts, x0, ..) FROM #cases over a harness table, one query per job) and compared
@@ -211,6 +214,8 @@ FORMS = {
     'safediv': (['dec', 'dec'], 'safediv(x0, x1)', 'q'),
     'safediv_int': (['dec', 'int'], 'safediv(x0, x1)', 'q'),
     'cast': (lambda c: [c[1]], lambda c: '%s(x0)' % c[0], lambda c: CAST_RT[c[0]]),
+    # the cast of a text written as a literal in the statement (the column only gives the table its rows)
+    'cast_k': (['int'], lambda c: '%s(%s)' % (c[0], qs(c[1])), lambda c: CAST_RT[c[0]]),
 }
 
 
@@ -237,6 +242,8 @@ def form(f, c):
 def generic_key(f, c):
     if f in TYPED:        # the type table is part of the case, not of the identity of what fails
         return ':'.join([f, 'default-types' if list(c[:5]) == TYPE_TABLES[0] else 'renamed-types'])
+    if f == 'cast_k':     # the text is part of the case
+        return ':'.join([f, c[0]])
     return ':'.join([f] + [x for x in c if isinstance(x, str)])
 
 
@@ -547,7 +554,33 @@ def calendar_jobs(ctx, ds):
            '2020-04-31', '0000-01-01', '', 'abcd', '2020-01-01x', 'x020-01-01', '2020/01/01', '20200101', '2020-1-5',
            '2020-01-1', ' 2020-01-01', '2020:01:01', 'TRUE', '2020-02-29', '2100-02-29', '9999-12-31', 'a', ':']
     jobs.append(('cast', ['date', 'str'], [[s] for s in bad]))
+    # every spelling of the cast format (month / day zero padded or not), other ISO 8601 spellings of the same dates
+    # and near misses of the format; from a str column, from an untyped column and written as a literal
+    texts = date_texts(ds['rest'][::ctx.pick(3, 1)], rng)
+    jobs.append(('cast', ['date', 'str'], [[s] for s in texts]))
+    jobs.append(('cast', ['date', 'obj'], [[['s', s]] for s in texts]))
+    for s in rng.sample(texts, ctx.pick(24, 120)) + ['2022-4-5', '20220405', '2022-W14-2', '2023-2-29']:
+        jobs.append(('cast_k', ['date', s], [[0]]))
     return jobs
+
+
+def date_texts(ords, rng):
+    """input texts for date(<str>) (which of them are dates is the specification's business: ScalarLib!DateOfStr)"""
+    out = []
+    for o in ords:
+        d = datetime.date.fromordinal(o)
+        y, m, dd = d.year, d.month, d.day
+        iso = d.isocalendar()
+        out += ['%04d-%d-%d' % (y, m, dd), '%04d-%02d-%d' % (y, m, dd), '%04d-%d-%02d' % (y, m, dd),
+                '%04d%02d%02d' % (y, m, dd), '%04d-W%02d-%d' % tuple(iso), '%04dW%02d%d' % tuple(iso),
+                '%04d-W%02d' % tuple(iso)[:2], '%04d-%03d' % (y, d.timetuple().tm_yday)]
+        k = rng.randrange(8)
+        out.append(['%d-%d-%d' % (y % 1000, m, dd), '%04d-%d-%d' % (y, m, dd + 28), '%04d-%d-%d' % (y, m + 3, dd),
+                    '%04d-%03d-%d' % (y, m, dd), '%04d-%d-%03d' % (y, m, dd), '%04d-%d-%d-' % (y, m, dd),
+                    '%04d-%d%d' % (y, m, dd), '%04d/%d/%d' % (y, m, dd)][k])
+    out += ['%d-%d-%d' % (y, m, dd) for y in (1900, 2023, 2024, 999, 10000) for m in range(0, 14)
+            for dd in (0, 1, 9, 10, 28, 29, 30, 31, 32)]
+    return sorted(set(out))
 
 
 def all_strings(n, alphabet=ALPHABET):
@@ -831,6 +864,10 @@ def run(ctx):
         'date_bin judged for positive strides of one kind (days, or months/years with an origin day <= 28)',
         'regex functions judged for literal patterns with optional ^ / $ and at most one group',
         'root(a, n) with negative n judged with Python slice semantics (DESIGN.md Appendix B)',
+        'date(<text>): the statement names no cast format; pinned to the documented semantics of the conversion '
+        'the library applies, strptime("%Y-%m-%d") - a year of four digits, month and day of one or two digits (Python '
+        'docs: "the leading zero is optional for formats %d, %m"), every other text NULL (a blank after a dash and '
+        'characters outside ASCII are not judged)',
         'not judged: parse_date, today(), interval() spellings other than "N day|month|year[s]", 32-bit overflow']
     only = getattr(ctx, 'only_legs', None)
     want = lambda leg: only is None or leg in only  # noqa
@@ -887,6 +924,8 @@ def _run_legs(ctx, pool, mcpool, want, state):
         mcs.append((mcpool.submit('MC_Accounts', 'MC_Accounts.cfg', 'MC', workers=3), None))
         mcs.append((mcpool.submit('MC_Accounts', 'MC_Accounts_default_types.cfg', 'MC-nonvacuity', workers=1), 'MechInv'))
         mcs.append((mcpool.submit('MC_Numeric', 'MC_Numeric.cfg', 'MC', workers=2), None))
+        mcs.append((mcpool.submit('MC_DateCast', ctx.pick('MC_DateCast_quick.cfg', 'MC_DateCast.cfg'), 'MC', workers=2), None))
+        mcs.append((mcpool.submit('MC_DateCast', 'MC_DateCast_iso.cfg', 'MC-nonvacuity', workers=1), 'CastInv'))
         if not q:
             mcs.append((mcpool.submit('MC_Numeric', 'MC_Numeric8.cfg', 'MC', workers=4), None))
 
